@@ -660,3 +660,73 @@ Fixpoint mismatches_from (i : nat) (hs : list history) : list (nat * nat) :=
       end
   end.
 Definition mismatches := mismatches_from 0.
+
+(** * The message level (types/msg.go ValidateBasic, keeper/msg_server.go) *)
+
+(* A swap message: the keeper operation it carries and its deadline in Unix
+   seconds.  (BankSend is x/bank's MsgSend: no deadline, no swap ValidateBasic.) *)
+Record msg := mkMsg { m_op : op; m_deadline : Z }.
+
+Definition is_swap_msg (o : op) : bool := match o with BankSend _ _ _ => false | _ => true end.
+
+(* MsgDeposit/MsgWithdraw/MsgSwapExactForTokens/MsgSwapForExactTokens.DeadlineExceeded:
+   blockTime.Unix() >= msg.Deadline -- a deadline EQUAL to the block time is already exceeded *)
+Definition deadline_exceeded (block_unix : Z) (m : msg) : bool :=
+  is_swap_msg (m_op m) && (m_deadline m <=? block_unix).
+
+(* msg_server.go: checkDeadline, then the keeper call (AccAddressFromBech32
+   cannot fail for the addresses of the model) *)
+Definition msg_step (e : env) (block_unix : Z) (s : kstate) (m : msg) : outcome kstate (list Z) :=
+  if deadline_exceeded block_unix m then Err else step e s (m_op m).
+
+(* ValidateBasic of the four messages (run by baseapp before the handler): both
+   coins valid and non-zero, different denoms, slippage set and not negative
+   (shares positive for a withdrawal), deadline positive.  Denoms of the model
+   are valid names and addresses well-formed. *)
+Definition validate_basic (m : msg) : bool :=
+  match m_op m with
+  | Deposit _ d1 a1 d2 a2 sl | SwapIn _ d1 a1 d2 a2 sl | SwapOut _ d1 a1 d2 a2 sl =>
+      (0 <? a1) && (0 <? a2) && negb (Nat.eqb d1 d2) && (0 <=? sl) && (0 <? m_deadline m)
+  | Withdraw _ shs d1 m1 d2 m2 =>
+      (0 <? shs) && (0 <? m1) && (0 <? m2) && negb (Nat.eqb d1 d2) && (0 <? m_deadline m)
+  | BankSend _ _ _ => true
+  end.
+
+(* a message delivered in a transaction at block time [block_unix] *)
+Definition tx_step (e : env) (block_unix : Z) (s : kstate) (m : msg) : outcome kstate (list Z) :=
+  if negb (validate_basic m) then Err else msg_step e block_unix s m.
+
+Definition tx_step' (e : env) (s : kstate) (tm : Z * msg) : kstate :=
+  match tx_step e (fst tm) s (snd tm) with Ok s' _ => s' | _ => s end.
+Definition tx_run (e : env) (s : kstate) (l : list (Z * msg)) : kstate := fold_left (tx_step' e) l s.
+
+(** ** message histories for the correspondence check *)
+Record mhistory := mkMH { mh_env : env; mh_init : kstate; mh_steps : list (Z * msg * obs) }.
+
+Fixpoint first_mismatch_m (e : env) (s shd : kstate) (h : list (Z * msg * obs)) (i : nat) : option nat :=
+  match h with
+  | [] => None
+  | (t, m, ob) :: r =>
+      let res := tx_step e t s m in
+      let s' := match res with Ok s1 _ => s1 | _ => s end in
+      let shd' := apply_obs shd ob in
+      if rclass_eqb (class_of res) (o_class ob)
+         && proj_eqb (project e s') (project e shd')
+         && inv_b e s'
+      then first_mismatch_m e s' shd' r (S i)
+      else Some i
+  end.
+
+Definition check_mhistory (h : mhistory) : option nat :=
+  if inv_b (mh_env h) (mh_init h) then first_mismatch_m (mh_env h) (mh_init h) (mh_init h) (mh_steps h) 0 else Some 0%nat.
+
+Fixpoint mmismatches_from (i : nat) (hs : list mhistory) : list (nat * nat) :=
+  match hs with
+  | [] => []
+  | h :: r =>
+      match check_mhistory h with
+      | None => mmismatches_from (S i) r
+      | Some k => (i, k) :: mmismatches_from (S i) r
+      end
+  end.
+Definition mismatches_m := mmismatches_from 0.
